@@ -125,7 +125,12 @@ func (d *dispatcher) Dispatch(msg *pb.XuperMessage, stream Stream) error {
 		return ErrStreamNil
 	}
 
-	if _, ok := d.mc[msg.GetHeader().GetType()]; !ok {
+	// the subscriber table may only be read under the lock: Register and
+	// UnRegister write it concurrently
+	d.mu.RLock()
+	_, registered := d.mc[msg.GetHeader().GetType()]
+	d.mu.RUnlock()
+	if !registered {
 		return ErrNotRegister
 	}
 
